@@ -111,6 +111,13 @@ UnexpectedOpenCats(i, rxv) ==
     ELSE IF \E m \in last' : m.c = o.c /\ m.label = "HIT" THEN {"C04"}
     ELSE {"C05"}
 
+\* the proxy's own request counters (dashboard): every client request is counted exactly once and every request that
+\* reached the origin is counted.  Not one of the listed properties: a mismatch is reported as a note (category "metrics").
+MetricCats ==
+    IF "metrics" \notin DOMAIN Line \/ ~F(Line, "settled", TRUE) THEN {}
+    \* (upstream_requests counts attempts: a departed client's own fetch is counted although it never leaves the proxy)
+    ELSE IF Line.metrics.upstream >= Line.ohits /\ Line.metrics.http = Line.metrics.sent THEN {} ELSE {"metrics"}
+
 WaitingCats ==
     IF F(Line, "settled", TRUE) /\ Line.waiting = Cardinality({c \in Clients : creq'[c].st = "wait"}) THEN {}
     ELSE IF ~F(Line, "settled", TRUE) THEN {"C05", "C09"} ELSE {"C05"}
@@ -130,6 +137,7 @@ StepCats(rxv) ==
     \cup UnionAll({ContactCats(x) : x \in NewContacts(rxv)})
     \cup UnionAll({UnexpectedOpenCats(i, rxv) : i \in 1..Len(Opened)})
     \cup WaitingCats
+    \cup MetricCats
 
 tvars == <<vars, l, bad, bads>>
 ConsumeX(rxv) ==
